@@ -120,6 +120,9 @@ func TryToVirtuallyAllocatePreemptorAndGetVictims(
 				tasksToAllocate := podgroup_info.GetTasksToAllocate(jobToAllocate, ssn.PodSetOrderFn,
 					ssn.TaskOrderFn, false)
 				newVictims = append(newVictims, tasksToAllocate...)
+			} else if podgroup_info.HasTasksToAllocate(jobToAllocate, false) {
+				// like the allocate action: an elastic job gets its pods one allocation unit per turn
+				jobsToAllocate.PushJob(jobToAllocate)
 			}
 			continue
 		}
